@@ -1,4 +1,5 @@
 import Ruint.Model.Div
+import Ruint.Gen.WordsDivLoops
 import Ruint.Gen.WordsDiv
 /-! Driver for C14: evaluates the model (`Ruint.Div.*` on limb lists) and the spec (`Nat` `/`, `%`).
 
@@ -43,9 +44,12 @@ def handle (args : List String) (_impl : String) : String × String :=
       let l := parseLimbs a; let d := parseHex b
       let n := Ruint.val l
       let m := match op with
-        | "nx1n" => divNx1Normalized l d
+        -- normalised divisors: the loops GENERATED from the source (`Props/C14.gen_div_nx1_normalized_eq`, `…nx2…`)
+        | "nx1n" => if 2 ^ 63 ≤ d ∧ d < 2 ^ 64 then Ruint.Gen.div_nx1_normalized (l.length + 1) l d
+                    else divNx1Normalized l d
         | "nx1" => divNx1 l d
-        | "nx2n" => divNx2Normalized l d
+        | "nx2n" => if 2 ^ 127 ≤ d ∧ d < 2 ^ 128 then Ruint.Gen.div_nx2_normalized (l.length + 1) l d
+                    else divNx2Normalized l d
         | _ => divNx2 l d
       (ll m.1 ++ " " ++ toHex m.2, ll (toLimbs l.length (n / d)) ++ " " ++ toHex (n % d))
     | "nxm" =>
